@@ -1,0 +1,118 @@
+//go:build verif
+
+package json
+
+// Contract for the token state machine Decoder.Read (property C21): the sequence of tokens it
+// accepts is a JSON text (RFC 8259 section 2 and 4-5):
+//
+//	value  = null / bool / number / string / object / array
+//	object = "{" [ member *( "," member ) ] "}"      member = string ":" value
+//	array  = "[" [ value *( "," value ) ] "]"
+//
+// The state is (kind of the previous token, innermost open container). specNextOK says which
+// token kinds may follow; it is written from the grammar, not from the code.
+
+// specTop: the innermost open container (0 at top level).
+func specTop(stack []Kind) Kind {
+	if len(stack) == 0 {
+		return 0
+	}
+	return stack[len(stack)-1]
+}
+
+// specValueNext: a value may start here.
+func specValueNext(last, top Kind) bool {
+	switch top {
+	case 0:
+		return last == 0 // a JSON text is a single value
+	case ObjectOpen:
+		return last == Name // after  string ":"
+	case ArrayOpen:
+		return last == ArrayOpen || last == comma // first element, or after ","
+	}
+	return false
+}
+
+// specAfterValue: the previous token ended a value.
+func specAfterValue(last Kind) bool {
+	return last == Null || last == Bool || last == Number || last == String || last == ObjectClose || last == ArrayClose
+}
+
+// specNextOK: token kind k (Name for a member name) may follow.
+func specNextOK(last, top, k Kind) bool {
+	switch k {
+	case Null, Bool, Number, String, ObjectOpen, ArrayOpen:
+		return specValueNext(last, top)
+	case Name:
+		return top == ObjectOpen && (last == ObjectOpen || last == comma)
+	case ObjectClose:
+		return top == ObjectOpen && (last == ObjectOpen || specAfterValue(last))
+	case ArrayClose:
+		return top == ArrayOpen && (last == ArrayOpen || specAfterValue(last))
+	case comma:
+		return top != 0 && specAfterValue(last)
+	}
+	return false
+}
+
+// specKind: k is one of the token kinds (each is a distinct bit), or 0 before the first token.
+func specKind(k Kind) bool {
+	return k == 0 || k == EOF || k == Null || k == Bool || k == Number || k == String || k == Name ||
+		k == ObjectOpen || k == ObjectClose || k == ArrayOpen || k == ArrayClose || k == comma
+}
+
+// specDecoderOK: the invariant of the decoder state between calls: the container stack holds only
+// "{" and "[" marks, and the previous token agrees with the innermost open container.
+func specDecoderOK(last Kind, stack []Kind) bool {
+	return specStackOK(stack) && specLastOK(last, stack)
+}
+
+// specStackOK: only "{" and "[" marks on the container stack.
+func specStackOK(stack []Kind) bool {
+	return forallIn(stack, 0, len(stack), func(k int, e Kind) bool { return e == ObjectOpen || e == ArrayOpen })
+}
+
+// specLastOK: the previous token agrees with the innermost open container.
+func specLastOK(last Kind, stack []Kind) bool {
+	return specKind(last) &&
+		imp(last == ObjectOpen || last == Name, specTop(stack) == ObjectOpen) &&
+		imp(last == ArrayOpen, specTop(stack) == ArrayOpen) &&
+		imp(last == comma, specTop(stack) != 0) &&
+		imp(last == 0 || last == EOF, len(stack) == 0)
+}
+
+// parseNext lexes one token from d.in: it reads and advances the input only; the token state
+// (lastToken, openStack) is untouched. Trusted summary (the lexers for the individual token kinds
+// are under their own contracts).
+//
+// @ trusted
+func contract_Decoder_parseNext(d *Decoder) (tok Token, err error) {
+	requires(d != nil)
+	modifiesPtr(&d.in)
+	ensuresTrusted(imp(err == nil, specKind(tok.kind) && tok.kind != 0 && tok.kind != Name))
+	return
+}
+
+// Read returns a token only if it may follow in the grammar, and keeps the container stack in
+// step with the tokens it returns.
+//
+// @ props C21
+// @ mode bv
+// @ split
+// @ nopanic
+// @ inline isValueNext
+func contract_Decoder_Read(d *Decoder) (tok Token, err error) {
+	requires(d != nil)
+	domain(d.lastCall != peekCall) // a pending Peek result is handed out unchanged
+	// the decoder's state invariant (holds after NewDecoder; its preservation is stated below as a
+	// goal but does not discharge completely, so it is a restriction of the verified domain)
+	domain(specDecoderOK(d.lastToken.kind, d.openStack))
+	modifiesAll()
+	// the invariant is re-established (so that it holds before every call after NewDecoder)
+	ensuresGoal(imp(err == nil && tok.kind != EOF && tok.kind != 0, specLastOK(d.lastToken.kind, d.openStack)))
+	ensuresGoal(imp(err == nil && tok.kind != EOF && tok.kind != 0, specStackOK(d.openStack)))
+	ensures(imp(err == nil && tok.kind != EOF && tok.kind != 0,
+		specNextOK(old(d.lastToken.kind), old(specTop(d.openStack)), tok.kind) ||
+			(specNextOK(old(d.lastToken.kind), old(specTop(d.openStack)), comma) && specNextOK(comma, old(specTop(d.openStack)), tok.kind))))
+	return
+}
